@@ -26,7 +26,7 @@ BStep == \/ \E f \in Covers(open["A"]) : vm["B"][f] = "init" /\ open["B"] = "non
          \/ ERest("B")
 \* the shape of the histories (a filter inside the next-state relation)
 ENext == \/ EFinish
-         \/ Len(hist) = 0 /\ \E f \in Fields \ {"alias", "output", "input", "char_conv", "std_input"} : EMutate("B", f)
+         \/ Len(hist) = 0 /\ \E f \in Fields \ {"alias", "output", "input", "char_conv", "std_input", "ops_read"} : EMutate("B", f)
          \/ Len(hist) = 1 /\ \E e \in Enums : hist[1].field \in Covers(e) /\ EOpen("A", e)
          \/ Len(hist) \in 2..3 /\ open["A"] # "none" /\ BStep
          \/ Len(hist) \in 3..4 /\ open["B"] = "none" /\ ERest("A")
